@@ -31,6 +31,8 @@ pub axiom fn axiom_sec1_forms(pt: Seq<u8>, c: bool) ensures sec1_valid(sec1_form
 pub axiom fn axiom_sec1_valid_framing(b: Seq<u8>) ensures sec1_valid(b) ==> sec1_framing_ok(b) && sec1_form(sec1_point(b), sec1_is_compressed(b)) == b;
 pub axiom fn axiom_pub_valid(d: Seq<u8>, c: bool) ensures valid_secret(d) ==> sec1_valid(sec1_form(pub_of(d), c));
 pub axiom fn axiom_sign_verifies(d: Seq<u8>, k: Seq<u8>, z: Seq<u8>) ensures ecdsa_sign(d, k, z) is Some && valid_secret(d) ==> ecdsa_verify(pub_of(d), z, ecdsa_sign(d, k, z)->Some_0.0);
+// a k256 Signature value always holds scalars in [1, n-1] (its type invariant)
+pub axiom fn axiom_sign_valid_scalars(d: Seq<u8>, k: Seq<u8>, z: Seq<u8>) ensures ecdsa_sign(d, k, z) is Some ==> valid_sig_scalars(ecdsa_sign(d, k, z)->Some_0.0.r, ecdsa_sign(d, k, z)->Some_0.0.s);
 pub axiom fn axiom_sign_recovers(d: Seq<u8>, k: Seq<u8>, z: Seq<u8>) ensures ecdsa_sign(d, k, z) is Some && valid_secret(d) ==> ({ let (sg, y, x) = ecdsa_sign(d, k, z)->Some_0; ecdsa_recover(sg, y, x, z) == Some(pub_of(d)) && valid_sig_scalars(sg.r, sg.s) });
 pub axiom fn axiom_ecdh_commutes(a: Seq<u8>, b: Seq<u8>) ensures pt_mul(pub_of(a), b) == pt_mul(pub_of(b), a);
 pub axiom fn axiom_bip32_distributes(k: Seq<u8>, il: Seq<u8>) ensures valid_secret(sc_add(k, il)) ==> pt_add(pub_of(k), pub_of(il)) == Some(pub_of(sc_add(k, il)));
